@@ -13,6 +13,21 @@ CLAIMED = {
    text="All ordered pairs of the duration lattice go through == != < <= > >= cmp partial_cmp min max and a+b>a; all triples of a 50-value zero-crossing/adjacent-century sub-lattice through the transitivity checks; sort from four permutations; lattice x 9 units for the Unit comparisons. x == -x within one century is a counted don't-care (documented).",
    note="Trusted: from_parts/to_parts (C02). Equality between exact negations below one century is not judged (the statement allows it).",
    ref="DESIGN.md §4 C03"),
+ "C04": dict(
+   technique="bounded explicit-state model checking: exhaustive enumeration of epoch lattice x duration lattice x 9 scales through the real operators, all 81 scale pairs for Epoch - Epoch, plus stateright BFS over +-d sequences per scale, against i128 count arithmetic",
+   text="Every (scale, epoch count, duration) triple of the lattices is run through + - += -=, the Unit forms and exact-integer float seconds, and through the identities (e+d)-e=d, (e+d)-d=e, e+(f-e)=f, judged on to_parts(); Epoch - Epoch is checked for all 81 scale pairs both relationally (left scale after re-expressing the right operand) and against the exact model for the uniform scales and UTC; a stateright BFS chains +-d from each scale's zero, a leap second and -1 century.",
+   note="Traces that hit a duration bound are don't-cares (the statement excludes them). Cross-scale differences with an ET/TDB operand are judged relationally only.",
+   ref="DESIGN.md §4 C04"),
+ "C12": dict(
+   technique="bounded explicit-state model checking: exhaustive enumeration of all ordered pairs of ~1000 epochs (TAI instant lattice expressed in all nine scales) through the real comparison operators, and of pair x target-scale triples for conversion invariance, judged against the TAI instants",
+   text="A lattice of TAI instants (each scale's zero +- {0,1 ns,1 s,1 day,half/one century}, leap seconds on both sides incl. instants inside the inserted second) is expressed in every scale; all ordered pairs go through == != < <= > >= cmp partial_cmp min max Range::contains and the swapped forms; a sub-lattice squared x 7 target scales checks that converting either or both operands preserves the answer; mixed-scale vectors are sorted.",
+   note="Pairs with an ET/TDB operand within 100 ns are don't-cares (statement). Conversion of an instant inside an inserted interval into UTC is a value don't-care (C06).",
+   ref="DESIGN.md §4 C12"),
+ "C15": dict(
+   technique="bounded explicit-state model checking: every series of a finite (start, span, step, unit, mode, scale pair) product is built with the real constructor and its iterator state machine stepped with next() to exhaustion (and once more), every item compared with a list model",
+   text="0.6 M (quick) / 1.4 M (thorough) series: starts at each scale's zero, before it, at century boundaries of the count and round three leap seconds; spans of 0..63 units and +-1 ns; steps of 1..7 units; ns/s/day (+us/min/week) units; inclusive and exclusive; end given in the start's scale or another one. Every yielded epoch must equal start + k*step exactly (computed from the start), in the start's scale, for exactly the k the bound admits, then None and None again. The thorough tier adds four series of 5-7 million items.",
+   note="end - start is measured in the end's scale (left operand of Epoch - Epoch, C04). Steps are positive (statement).",
+   ref="DESIGN.md §4 C15"),
  "C05": dict(
    technique="bounded explicit-state model checking: exhaustive enumeration of epoch lattice x all 36 ordered scale pairs through the real conversions, plus stateright BFS over every sequence of conversions up to depth 3/4, co-simulated with a one-subtraction reference model whose zero points are derived from civil dates",
    text="For every instant of the epoch lattice (both signs, century boundaries, every scale's zero, year 0001/9999, leap second instants) and every ordered pair of the six uniform scales the real to_time_scale / to_duration_in_time_scale / named accessor / named constructor / round trip are compared to the nanosecond with count + zero(src) - zero(dst); conversion is checked to commute with + d; all duplicated public constants are compared with the derived value; the zero date of every scale is rendered and rebuilt; a stateright BFS drives every conversion sequence from 6 x ~170 (quick) / 6 x ~700 (thorough) initial states and compares implementation and model state after every step.",
